@@ -346,3 +346,33 @@ def prefix_free_ids(rnd, n, maxlen=16):
         w = max(1, (n - 1).bit_length())
         ids = [i2b(i, w) for i in range(n)]
     return ids
+
+
+# ---- the domain of C01: lossless pairings with a rule length of 0 or the field length ------------------
+LOSSLESS = {('e', 'n'), ('i', 'v'), ('m', 'l'), ('p', 'm'), ('i', 'c')}
+
+
+def is_lossless_for(npd, nr, d=None):
+    """nr applies to npd through descriptors that are lossless by construction (the quantifier of C01)."""
+    if nr['nature'] == 'N':
+        return True
+    fds = select(nr, d if d is not None else npd['dir'])
+    if len(fds) != len(npd['fields']):
+        return False
+    for (fid, pos, v), fd in zip(npd['fields'], fds):
+        if (fd['mo'], fd['cda']) not in LOSSLESS:
+            return False
+        if fd['cda'] in ('v', 'l') and fd['len'] not in (0, len(v)):
+            return False
+        if fd['cda'] == 'c' and fd['len'] != len(v):
+            return False
+        if fd['cda'] == 'm':
+            vals = [a for a, _ in fd['tv'][1]]
+            idxs = [b for _, b in fd['tv'][1]]
+            if len(set(vals)) != len(vals):
+                return False
+            for i, a in enumerate(idxs):
+                for j, b2 in enumerate(idxs):
+                    if i != j and b2.startswith(a):
+                        return False
+    return True
